@@ -32,7 +32,7 @@ def run(rep, tier):
 
     with ThreadPoolExecutor(nproc) as ex:
         results = list(ex.map(drive, range(nproc)))
-    total = nfit = nalg = states = 0
+    total = nfit = nalg = states = nmfit = nlarge = 0
     kinds = set()
     for crashed, o, bad, acc, rejects, rs, st in results:
         if crashed:
@@ -47,19 +47,24 @@ def run(rep, tier):
         for x in rs:
             if x["e"] == "WFit" and x["fitted"]:
                 nfit += 1
+                nmfit += 1 if "mclass" in x["kinds"] else 0
             elif x["e"] == "WAlg":
                 nalg += 1
                 kinds.add(x["kind"])
-    if not rep.violations and (nfit < 1000 or nalg < 800 or len(kinds) < 9):
-        raise CheckError("weak-learner coverage too small: %d fits, %d algebra cases, kinds %s" % (nfit, nalg, sorted(kinds)))
+                nlarge += 1 if x["n"] >= 100 else 0
+    if not rep.violations and (nfit < 1000 or nalg < 800 or len(kinds) < 9 or nmfit < 200 or nlarge < 20):
+        raise CheckError("weak-learner coverage too small: %d fits (%d with multi-label features), %d algebra cases (%d trees on >= 100 "
+                         "samples), kinds %s" % (nfit, nmfit, nalg, nlarge, sorted(kinds)))
     rep.sample([x for x in results[0][5] if x["e"] == "WFit" and x["fitted"]][0])
     rep.sample([x for x in results[0][5] if x["e"] == "WAlg"][0])
-    rep.add(traces_validated_against_impl=total, evaluations=total, distinct_nontrivial=nfit, brute_force_fits=nfit, algebra_cases=nalg,
+    rep.add(traces_validated_against_impl=total, evaluations=total, distinct_nontrivial=nfit, brute_force_fits=nfit, brute_force_fits_with_multilabel=nmfit,
+            algebra_cases=nalg, trees_on_100_or_more_samples=nlarge,
             states=states, transitions=states,
-            rule="exact fits: 2..12 samples, 1..4 integer scalar / categorical (<=4 classes) features with missing values and ties, 1..2 outputs, "
-                 "integer gradients, sample lists with repetition, RSS criterion, stump / hinge / affine / dense-table / dstep-table; algebra: "
-                 "2..60 samples, up to 8 scalar / single-label / multi-label features, 1..3 outputs, 4 criteria, all 8 learners; non-trivial = "
-                 "fits that produced a learner")
+            rule="exact fits: 2..12 samples, 1..5 integer scalar / single-label (<=4 classes) / multi-label (<=3 labels, a value = its set "
+                 "of labels) features with missing values and ties, 1..2 outputs, integer gradients, sample lists with repetition, RSS "
+                 "criterion, stump / hinge / affine / dense-table / dstep-table; algebra: 2..60 samples (trees also 100..200 with min_split "
+                 "1..10), up to 8 scalar / single-label / multi-label features, 1..3 outputs, 4 criteria, all 8 learners, predict-into-outputs "
+                 "and split() also on strict sub-lists / unsorted / repeated lists; non-trivial = fits that produced a learner")
     rep.assume("TLC's rational minimum is compared with the fitted score at 1e-3 (32-bit integers); that the predictions reproduce the score, and "
                "the algebraic clauses, are computed by the driver (1e-9 / 1e-12 relative) and enter TLC as booleans",
                "AIC/AICc/BIC (logarithms) are used only in the consistency clauses; optimality beyond the integer lattice is not covered")
